@@ -663,6 +663,105 @@ Qed.
 
 End DataLemmas.
 
+(* a row that no frame's solver owns, that is not exogenized and is not an unanticipated-shock row keeps its input
+   values through the whole frame loop (measurement variables, exogenous variables, parameters) *)
+Section RowUntouched.
+Context {V : Type}.
+Variable dflt : V.
+
+Theorem step_frame_row_untouched : forall zero S input main f oracle q c,
+  zmem q (s_uqids S) = false ->
+  (forall c', touched (frame_wrt S f) (frame_term S f) q c' = false) ->
+  (forall c', ~ In (q, c') (frame_exog S f)) ->
+  get dflt (snd (step_frame dflt zero S input main f oracle)) q c = get dflt main q c.
+Proof.
+  intros zero S input main f oracle q c Hu Ht He. unfold step_frame. simpl.
+  rewrite write_back_spec.
+  destruct (written_back (s_uqids S) (s_fcp S) f q c && inb main q c); auto.
+  rewrite frame_after_untouched by auto.
+  rewrite copy_exogenized_spec.
+  assert (E : smem (q, c) (frame_exog S f) = false) by (apply smem_false; auto).
+  rewrite E. simpl.
+  rewrite prune_spec, Hu. rewrite andb_false_r. reflexivity.
+Qed.
+
+Theorem run_frames_row_untouched : forall zero S input frames oracles main q c,
+  zmem q (s_uqids S) = false ->
+  Forall (fun f => (forall c', touched (frame_wrt S f) (frame_term S f) q c' = false)
+                   /\ (forall c', ~ In (q, c') (frame_exog S f))) frames ->
+  get dflt (snd (run_frames dflt zero S input main frames oracles)) q c = get dflt main q c.
+Proof.
+  induction frames as [| f fs IH]; intros oracles main q c Hu HF; simpl; auto.
+  destruct oracles as [| o os]; simpl; auto.
+  inversion HF as [| ? ? [Ht He] HF']; subst.
+  rewrite IH by auto. apply step_frame_row_untouched; auto.
+Qed.
+
+End RowUntouched.
+
+(* ------------------------------------------------------------------ Jacobian map *)
+
+Lemma index_last_from_spec : forall s l i acc r,
+  index_last_from s l i acc = Some r ->
+  (acc = Some r /\ ~ In s l) \/ (i <= r < i + Z.of_nat (length l) /\ nth (Z.to_nat (r - i)) l (r, r) = s).
+Proof.
+  induction l as [| x l IH]; intros i acc r H; simpl in *.
+  - left. split; auto.
+  - apply IH in H. destruct H as [[H1 H2] | [H1 H2]].
+    + destruct (spot_eqb s x) eqn:E.
+      * inversion H1; subst. apply spot_eqb_eq in E. subst. right. split; [lia |].
+        replace (r - r) with 0 by lia. reflexivity.
+      * left. split; auto. intros [K | K]; [| contradiction].
+        subst. rewrite spot_eqb_refl in E. discriminate.
+    + right. split; [lia |].
+      replace (Z.to_nat (r - i)) with (S (Z.to_nat (r - (i + 1)))) by lia. exact H2.
+Qed.
+
+(* the column found for a token is a position of that token among the unknowns *)
+Lemma index_last_spec : forall s l r, index_last s l = Some r ->
+  0 <= r < Z.of_nat (length l) /\ nth (Z.to_nat r) l (r, r) = s.
+Proof.
+  intros s l r H. unfold index_last in H. apply index_last_from_spec in H.
+  destruct H as [[H _] | [H1 H2]]; [discriminate |].
+  rewrite Z.sub_0_r in H2. split; [lia | exact H2].
+Qed.
+
+Lemma In_enumerate_from : forall A (l : list A) i k x,
+  In (k, x) (enumerate_from i l) -> exists n, nth_error l n = Some x /\ k = i + Z.of_nat n.
+Proof.
+  induction l; intros i k x H; simpl in H. contradiction.
+  destruct H as [H | H].
+  - inversion H; subst. exists 0%nat. split; [reflexivity | lia].
+  - apply IHl in H. destruct H as [n [H1 H2]]. exists (S n). split; [exact H1 | lia].
+Qed.
+
+(* every entry of the Jacobian map sits in the stacked row of (its equation, its column index) -- the same row as
+   the residual of that equation in that column -- and in the column of the unknown Token(qid, shift + column) *)
+Theorem jac_map_from_spec : forall neq wrt_tokens e0 off cols lhs r c rr rc,
+  In (r, c, rr, rc) (jac_map_from neq e0 off wrt_tokens cols lhs) ->
+  exists de toks tok col,
+    nth_error wrt_tokens de = Some toks /\ In tok toks /\ nth_error cols (Z.to_nat rc) = Some col /\ 0 <= rc
+    /\ r = stack_index neq (e0 + Z.of_nat de) rc
+    /\ index_last (fst tok, snd tok + col) lhs = Some c.
+Proof.
+  induction wrt_tokens as [| toks rest IH]; intros e0 off cols lhs r c rr rc H; simpl in H. contradiction.
+  apply in_app_or in H. destruct H as [H | H].
+  - apply in_flat_map in H. destruct H as [[k tok] [Hk H]].
+    apply in_flat_map in H. destruct H as [[j col] [Hj H]].
+    simpl in H. destruct (index_last (fst tok, snd tok + col) lhs) eqn:I; [| contradiction].
+    destruct H as [H | []]. inversion H; subst.
+    apply In_enumerate_from in Hk. destruct Hk as [n [Hn _]].
+    apply In_enumerate_from in Hj. destruct Hj as [m [Hm Ej]]. subst rc.
+    exists 0%nat, toks, tok, col. repeat split; auto.
+    + eapply nth_error_In; eauto.
+    + rewrite Z.add_0_l, Nat2Z.id. exact Hm.
+    + lia.
+    + f_equal. lia.
+  - apply IH in H. destruct H as [de [toks' [tok [col [H1 [H2 [H3 [H4 [H5 H6]]]]]]]]].
+    exists (S de), toks', tok, col. repeat split; auto.
+    rewrite H5. f_equal. lia.
+Qed.
+
 (* ------------------------------------------------------------------ stacking map *)
 
 Lemma stack_index_spec : forall neq e j, stack_index neq e j = e + neq * j.
